@@ -52,7 +52,8 @@ ASSUMPTIONS = [
     "the factor its own definition uses",
     "s_to_st is only claimed for symmetric spatial tensors (its docstring: "
     "E, B, K)",
-    "safe_division: magnitudes kept in 1e-3..1e3 so that a/b itself cannot "
+    "safe_division: magnitudes kept in 1e-3..1e3 (times a common factor "
+    "10**tiny_exp down to 1e-250 for float64 operands) so that a/b itself cannot "
     "overflow; int32 inputs are documented to go through float32, hence "
     "rtol 1e-6 for 32-bit inputs and 4 ulp for 64-bit inputs",
 ]
@@ -808,20 +809,27 @@ def sd_case(draw):
                 a_zero_too=draw(st.booleans()),
                 big_ints=draw(st.booleans()),
                 bscalar_zero=draw(st.booleans()),
-                neg_zero=draw(st.booleans()))
+                neg_zero=draw(st.booleans()),
+                # tiny but non-zero float64 magnitudes (10**tiny_exp): a
+                # divisor is only "zero" when it IS zero
+                tiny_exp=draw(st.sampled_from([0, 0, 0, -17, -30, -120,
+                                               -250])))
 
 
-def sd_operand(kind, shape, rng, zero_mask_frac, scalar_zero, big, negzero):
+def sd_operand(kind, shape, rng, zero_mask_frac, scalar_zero, big, negzero,
+               tiny_exp=0):
     """value handed to safe_division and its exact float64 image"""
     integer = kind in ("pyint", "np_i32", "np_i64", "arr_i32", "arr_i64")
+    if kind not in ("pyfloat", "np_f64", "arr0d_f64", "arr_f64"):
+        tiny_exp = 0
     if kind.startswith("arr") and kind != "arr0d_f64":
         if integer:
             hi = 2**30 if big else 1000
             v = rng.integers(1, hi, size=shape) * rng.choice([-1, 1],
                                                              size=shape)
         else:
-            v = 10.0 ** rng.uniform(-3, 3, size=shape) * rng.choice(
-                [-1.0, 1.0], size=shape)
+            v = 10.0 ** (rng.uniform(-3, 3, size=shape) + tiny_exp) \
+                * rng.choice([-1.0, 1.0], size=shape)
         if zero_mask_frac > 0:
             z = rng.uniform(0, 1, size=shape) < zero_mask_frac
             v = np.where(z, 0, v)
@@ -837,7 +845,8 @@ def sd_operand(kind, shape, rng, zero_mask_frac, scalar_zero, big, negzero):
             rng.choice([-1, 1]))
     else:
         x = (-0.0 if negzero else 0.0) if scalar_zero else float(
-            10.0 ** rng.uniform(-3, 3) * rng.choice([-1.0, 1.0]))
+            10.0 ** (rng.uniform(-3, 3) + tiny_exp)
+            * rng.choice([-1.0, 1.0]))
     v = dict(pyint=int, pyfloat=float, np_f64=np.float64, np_f32=np.float32,
              np_i32=np.int32, np_i64=np.int64,
              arr0d_f64=lambda t: np.array(t, dtype=np.float64))[kind](x)
@@ -859,13 +868,21 @@ def test_safe_division(case, note):
         sa = (shape[-1],)
     elif lay == "1d":
         sa = sb = (shape[0] * shape[1],)
+    # tiny magnitudes only when both operands are float64-wide: mixed with a
+    # 32-bit operand numpy computes in float32, where 1e-120 *is* zero
+    F64 = ("pyfloat", "np_f64", "arr0d_f64", "arr_f64")
+    if not (case["a"] in F64 and case["b"] in F64):
+        case = dict(case, tiny_exp=0)
     a, a64 = sd_operand(case["a"], sa, rng,
                         case["zero_frac"] if case["a_zero_too"] else 0.0,
                         case["a_zero_too"] and case["bscalar_zero"],
-                        case["big_ints"], case["neg_zero"])
+                        case["big_ints"], case["neg_zero"],
+                        case.get("tiny_exp", 0))
     b, b64 = sd_operand(case["b"], sb, rng, case["zero_frac"],
                         case["bscalar_zero"], case["big_ints"],
-                        case["neg_zero"])
+                        case["neg_zero"], case.get("tiny_exp", 0))
+    if case.get("tiny_exp", 0):
+        note.cls("tiny-nonzero-divisor")
     note.cls("a=" + case["a"], "b=" + case["b"], "layout=" + lay)
     haszero = bool(np.any(b64 == 0))
     note.nt(haszero)
@@ -935,7 +952,8 @@ def sd_generic():
                                 shape=[2, 3, 4], seed=1000 + k,
                                 zero_frac=0.3, a_zero_too=bool(k % 2),
                                 big_ints=bool(k % 3 == 0), bscalar_zero=bz,
-                                neg_zero=bool(k % 5 == 0)))
+                                neg_zero=bool(k % 5 == 0),
+                                tiny_exp=[0, -17, -120][k % 3]))
                 k += 1
     return out
 
